@@ -172,6 +172,8 @@ def build_world() -> World:
        "definition (python dict: every enumerated key is a key of the dict)")
     ax("D-states-wf2", "forall[Node, str](lambda n, k: implies(n != None and k in n.states, 0 <= keyidx(n.states, k) and keyidx(n.states, k) < len(n.states) and keys(n.states)[keyidx(n.states, k)] == k), lambda n, k: k in n.states)",
        "definition (python dict: every key of the dict is enumerated)")
+    ax("D-states-wf3", "forall[Node, int](lambda n, i: implies(n != None and 0 <= i and i < len(n.states), keyidx(n.states, keys(n.states)[i]) == i), lambda n, i: keys(n.states)[i])",
+       "definition (python dict: the enumerated keys are pairwise distinct)")
     ax("D-states-len", "forall[Node](lambda n: implies(n != None, len(n.states) >= 0), lambda n: len(n.states))", "definition (python dict: a length is not negative)")
 
     # height(n): length of the longest path below n - exists because the tree is finite (A-tree); used as termination measure of
@@ -235,6 +237,14 @@ def build_world() -> World:
        f"ite({LEAF_BUILTIN}, stin(g, e, A), not praises(g.params, e, c) and not ucall_raises(root.logic.guards[g.type], e, c) and ucall_truth(root.logic.guards[g.type], e, c)))), "
        "lambda g, e, A, c: gval(g, e, A, c))",
        "definition (from the C06 statement: and/or/not with ordinary boolean meaning at any depth; a predicate that raises counts as false)")
+
+    ax("D-states-complete", "forall[Node](lambda c: implies(c != None and c.parent != None, c.key in c.parent.states and c.parent.states[c.key] == c), lambda c: c.parent)",
+       "bounded:StateNode.__init__ stores every child under its key in the parent's `states`")
+    ax("D-states-key", "forall[Node, str](lambda n, k: implies(n != None and k in n.states, n.states[k].key == k), lambda n, k: n.states[k])",
+       "bounded:StateNode.__init__ gives the child stored under key k the key k")
+    ax("D-initial-not-history", "forall[Node, str](lambda n, k: implies(n != None and n.initial == k and k in n.states, n.states[k].type != 'history'), lambda n, k: n.states[k])",
+       "bounded:StateNode._parse_initial rejects an explicit `initial` that names a history pseudo-state (fix: section 6) and never infers one")
+    ax("D-root-type", "root.type != 'history'", "bounded:MachineNode is never a history pseudo-state")
 
     # child_toward(d, t): the child of d on the path down to t (defined when t is a proper descendant of d)
     w.fn("child_toward", [Node, Node], Node)
